@@ -10,13 +10,13 @@ Theorem C12_verdict_mode_indep :
   forall rc rm fo st st' s v,
     md_of st = md_of st' ->     (* same reading (plain / request / response, same exclusions) *)
     st_usenum st = st_usenum st' ->
-    g_all2 rc rm fo (md_of st) (st_usenum st) s = true -> g_all2 rc rm fo (md_of st') (st_usenum st') s = true -> vg v = true -> g_div s v = true ->
+    g_all2 rc rm fo (md_of st) (st_usenum st) s = true -> g_all2 rc rm fo (md_of st') (st_usenum st') s = true -> vg v = true ->
     accepts (visit rc rm fo st s v) = accepts (visit rc rm fo st' s v) /\
     is_panic (visit rc rm fo st s v) = false /\ is_panic (visit rc rm fo st' s v) = false.
 Proof.
-  intros rc rm fo st st' s v Hm Hu Hg Hg' Hv Hd.
-  destruct (main_visit rc rm fo st s v Hg Hv Hd) as [P A].
-  destruct (main_visit rc rm fo st' s v Hg' Hv Hd) as [P' A'].
+  intros rc rm fo st st' s v Hm Hu Hg Hg' Hv.
+  destruct (main_visit rc rm fo st s v Hg Hv) as [P A].
+  destruct (main_visit rc rm fo st' s v Hg' Hv) as [P' A'].
   repeat split; try assumption. rewrite A, A', Hm. reflexivity.
 Qed.
 Print Assumptions C12_verdict_mode_indep.
